@@ -15,6 +15,12 @@ FAMILY_ASSUMPTIONS = {
         "malloc may fail; strcmp/strdup/memcpy/free as modelled by cbmc; LINKS is decided for bounded values only (64-bit division)",
         "not decided: grouping, restrict/dup/XML/shmem interleavings through the real tree, hwloc_distances_obj_* inline helpers",
     ],
+    "synthetic": [
+        "explicit small object graphs for the composite exporters (concrete shapes per job: symbolic links would make every loop run to the unwinding bound); snprintf C99 contract stub; destination 0..BUFMAX bytes inside a guarded arena",
+        "assume-guarantee inside the file: hwloc__export_synthetic_indexes is checked against the snprintf-style contract on levels of 1..4 objects and replaced by that contract (goto-instrument --replace-calls) in its callers' harnesses",
+        "external functions as contract stubs (drivers/synthetic.drv.c): getenv -> NULL, hwloc_type_sscanf (any valid type; cache depth 1..5 tied to the type), hwloc_obj_type_string / hwloc_obj_type_snprintf, strtoul family (over-approximating stub, or exact decimal parser for the structured descriptions), strspn/strcspn/strncasecmp models, memmove as an element-wise backward copy of level entries",
+        "not decided: hwloc__look_synthetic (object creation through the core insertion code), faithful build (arities, index orderings in the resulting tree), export/import round trip, the v1 pre-check of hwloc_topology_export_synthetic",
+    ],
     "nolibxml": ["strspn model (/verif/stubs/strspn.h); cbmc's strchr/strcmp/strncmp/strlen models; the buffer is BL arbitrary bytes + NUL allocated with its exact size; next_attr assumes the invariant find_child is shown to establish (attribute text ends before the final byte)"],
     "base64": ["C-locale isspace (driver), cbmc's strchr model; exact-size malloc'ed buffers"],
     "printers": ["snprintf C99 contract stub (pieces <= 24 chars); explicit bitmap object with NW stored words; guarded arena for the destination"],
